@@ -46,6 +46,16 @@ def run(rep, tier):
         return fs
     M = "pika::execution::experimental::async_rw_mutex"
     # ---- R1
+    # the "kind of the last requested access" member: the only member of the mutex that is assigned access-type constants
+    accs = set()
+    for member in ("read", "readwrite"):
+        for fn in inst(M + "::" + member):
+            for _, _, ev in fn.all_events():
+                if ev.get("k") == "write" and T(strip(ev["rhs"])) in (RW, RD) and P(ev["lhs"]).startswith("this->"):
+                    accs.add(P(ev["lhs"]))
+    if len(accs) > 1:
+        raise AnalysisBroken("async_rw_mutex: more than one member holds the last access type: %s" % sorted(accs))
+    ACC = accs.pop() if accs else "this->prev_access"
     for member in ("read", "readwrite"):
         fs = inst(M + "::" + member)
         if len(fs) < 2:
@@ -62,8 +72,8 @@ def run(rep, tier):
                 raise AnalysisBroken("%s: expected one allocate_shared" % fn.full)
             ab, ai, aev = alloc[0]
             fb = ff.before.get((ab, ai)) or frozenset()
-            cond_rw = any(t and a in ("%s == this->prev_access" % RW, "this->prev_access == %s" % RW) for a, t in fb)
-            if member == "readwrite" and any("prev_access" in a for a, t in fb):
+            cond_rw = any(t and a in ("%s == %s" % (RW, ACC), "%s == %s" % (ACC, RW)) for a, t in fb)
+            if member == "readwrite" and any(ACC in a for a, t in fb):
                 probs.append("readwrite() allocates a new state only conditionally")
             if member == "read" and not cond_rw:
                 probs.append("read() allocates a new state although the previous access was not readwrite (readers would not be grouped) or never")
@@ -73,9 +83,9 @@ def run(rep, tier):
             if cf.exits != frozenset(want):
                 probs.append("allocation count per call is %s (expected %s)" % (sorted(cf.exits), sorted(want)))
             # prev_access bookkeeping
-            wr = [(b, i, ev) for b, i, ev in fn.all_events() if ev.get("k") == "write" and P(ev["lhs"]) == "this->prev_access"]
+            wr = [(b, i, ev) for b, i, ev in fn.all_events() if ev.get("k") == "write" and P(ev["lhs"]) == ACC]
             val = RW if member == "readwrite" else RD
-            if not wr or any(T(strip(ev["rhs"])) != val for b, i, ev in wr) or always_followed_by(fn, (ab, ai), lambda e: e.get("k") == "write" and P(e["lhs"]) == "this->prev_access"):
+            if not wr or any(T(strip(ev["rhs"])) != val for b, i, ev in wr) or always_followed_by(fn, (ab, ai), lambda e: e.get("k") == "write" and P(e["lhs"]) == ACC):
                 probs.append("prev_access is not set to '%s' on every allocating path" % val.rsplit("::", 1)[-1])
             # link-or-grant exactly once after allocation, chosen by prev_state
             cl = CountFlow(fn, lambda ev, pos: 1 if (link(ev) or grant(ev)) else 0)
@@ -114,7 +124,10 @@ def run(rep, tier):
     b, i, ev = cas[0]
     fb = ff.before.get((b, i)) or frozenset()
     OPN = ao.params[0]["name"] + "->next"        # the new waiter's link field (the parameter's name is free)
-    tested = any((not t) and OPN in a and "this" in a and "==" in a for a, t in fb)
+    # 'this' or a local constant initialised from it (void* const closed = static_cast<void*>(this))
+    this_names = ["this"] + [e["var"] for _, _, e in ao.all_events() if e.get("k") == "decl" and e.get("init") is not None and P(e["init"]) == "this" and
+                             not any(w.get("k") == "write" and P(w["lhs"]) == e["var"] for _, _, w in ao.all_events())]
+    tested = any((not t) and OPN in a and "==" in a and any(re.search(r"(^|[^\w>.])%s($|[^\w])" % re.escape(n), a) for n in this_names) for a, t in fb)
     if tested:
         rep.ok("C04.R2", ao, "every CAS attempt is preceded by the sentinel test op_state->next == this since next was last (re)loaded")
     else:
